@@ -175,7 +175,7 @@ class VECTOR_BLF_EXPORT File final {
      *
      * This includes the LogContainer headers, and the uncompressed content.
      */
-    uint64_t currentUncompressedFileSize {};
+    std::atomic<uint64_t> currentUncompressedFileSize {};
 
     /**
      * Current number of objects read
